@@ -621,7 +621,7 @@ Local Hint Resolve pres_dispatch : tpres.
 Lemma pres_on_message c msg o : pres (fun _ => True) (on_message cfg c msg o).
 Proof. unfold on_message. repeat pres_step. Qed.
 
-Lemma pres_on_open c : pres (fun _ => True) (on_open c).
+Lemma pres_on_open c : pres (fun _ => True) (on_open cfg c).
 Proof. unfold on_open. repeat pres_step. Qed.
 
 Lemma pres_on_close c : pres (fun _ => True) (on_close c).
@@ -663,8 +663,8 @@ Proof.
   - destruct (has_conn c s); [apply Hfin; exact Hs|]. cbv zeta.
     assert (Hs1 : TI b (now s) (set_conns s (conns s ++ [(c, new_conn)])))
       by (eapply TI_ext; [..|exact Hs]; reflexivity).
-    pose proof (run_m_INV b (now s) (on_open c) _ (pres_on_open b (now s) c) Hs1) as H.
-    destruct (run_m (on_open c) (set_conns s (conns s ++ [(c, new_conn)]))) as [s2 x].
+    pose proof (run_m_INV b (now s) (on_open cfg c) _ (pres_on_open cfg b (now s) c) Hs1) as H.
+    destruct (run_m (on_open cfg c) (set_conns s (conns s ++ [(c, new_conn)]))) as [s2 x].
     cbn [fst] in *. apply Hfin; exact H.
   - destruct (has_conn c s); [|apply Hfin; exact Hs].
     pose proof (pres_elim b (now s) _ _ s (pres_on_message cfg b (now s) c m o) Hs) as H.
